@@ -26,6 +26,9 @@ func sccJustify(c *an.Ctx, scc *an.SCC, detector []*an.Guard, allFuncs []*ssa.Fu
 		}
 		for _, g := range an.BoundGuards(e.Caller) {
 			v := an.Guarded(c.P, e.Caller, []*an.Guard{g}, func(in ssa.Instruction) bool { return in == ssa.Instruction(e.Site) }, false)
+			if strings.Contains(g.Name, " == ") && !growsByOne(e) {
+				continue // an equality bound is only sound for a counter stepped by exactly one
+			}
 			if v.Holds && v.GuardSites > 0 && (grows(e) || sinkGrows(c, e, g)) {
 				cutBy[i] = "bound"
 				break
@@ -248,4 +251,89 @@ func loopCompleteness(c *an.Ctx, fn *ssa.Function, keyPrefix string) int {
 		return true
 	})
 	return n
+}
+
+// growsByOne: an integer argument of the recursive call is param+1.
+func growsByOne(e an.CallEdge) bool {
+	for _, a := range e.Site.Common().Args {
+		if b, ok := a.(*ssa.BinOp); ok && b.Op == token.ADD {
+			if k, isK := b.Y.(*ssa.Const); isK && k.Value != nil && k.Value.String() == "1" {
+				if _, isP := b.X.(*ssa.Parameter); isP {
+					return true
+				}
+			}
+		}
+	}
+	return false
+}
+
+// structuralOnDecoded: every cycle edge of the component passes a value taken
+// (by type switch / assertion) from an element of a slice field of the
+// caller's own parameter of named type T, and objects of type T are allocated
+// only inside components that are themselves bounded (the decoder): the
+// recursion walks a finite tree whose depth the decoder bounded. Returns the
+// type name, or "".
+func structuralOnDecoded(c *an.Ctx, scc *an.SCC, boundedAllocators map[*ssa.Function]bool, scope []*ssa.Function) (string, string) {
+	var tname *types.Named
+	for _, e := range scc.CycleEdges(an.StaticEdges) {
+		if e.Site == nil {
+			return "", "closure edge"
+		}
+		ok := false
+		for _, a := range e.Site.Common().Args {
+			nm := namedOfType(a.Type())
+			if nm == nil {
+				continue
+			}
+			// a comes from a type assertion on an element of param.<field>[i]
+			src := a
+			if ex, isE := src.(*ssa.Extract); isE {
+				src = ex.Tuple
+			}
+			ta, isTA := src.(*ssa.TypeAssert)
+			if !isTA {
+				continue
+			}
+			el := ta.X
+			u, isU := el.(*ssa.UnOp)
+			if !isU {
+				continue
+			}
+			ia, isIA := u.X.(*ssa.IndexAddr)
+			if !isIA {
+				continue
+			}
+			base := ia.X
+			if lu, isL := base.(*ssa.UnOp); isL {
+				if fa, isFA := lu.X.(*ssa.FieldAddr); isFA {
+					if p, isP := fa.X.(*ssa.Parameter); isP && namedOfType(p.Type()) != nil && namedOfType(p.Type()).Obj() == nm.Obj() {
+						ok = true
+						tname = nm
+					}
+				}
+			}
+		}
+		if !ok {
+			return "", "a recursive call does not descend into a member of its own parameter"
+		}
+	}
+	if tname == nil {
+		return "", "no cycle edge"
+	}
+	// allocation sites of T
+	for _, fn := range scope {
+		if strings.HasSuffix(c.P.Fset.Position(fn.Pos()).Filename, "_test.go") {
+			continue
+		}
+		for _, b := range fn.Blocks {
+			for _, in := range b.Instrs {
+				if al, ok := in.(*ssa.Alloc); ok {
+					if nm := namedOfType(al.Type()); nm != nil && nm.Obj() == tname.Obj() && !boundedAllocators[fn] {
+						return "", tname.Obj().Name() + " is also allocated in " + an.FuncName(fn) + ", which is not a depth-bounded decoder"
+					}
+				}
+			}
+		}
+	}
+	return tname.Obj().Name(), ""
 }
